@@ -109,3 +109,15 @@ Definition mem_has (sx : oracle) (st : fstate) (e : emu) (p c n : Z) : bool :=
    inside the payload *)
 Definition cstr_ok (sx : oracle) (st : fstate) (e : emu) (p : Z) : bool :=
   (0 <=? p) && existsb (fun k => byte_at (f_payload e) (p + Z.of_nat k) =? 0) (seq 0 (Z.to_nat (psize e - p))).
+
+(* ---- the static tables of the table-driven models (ss_table[c][v] / fn_table[c][v]): in this mode a row is arbitrary,
+   three integers given by the oracle for each pair of index bytes (the encoding is injective on bytes) *)
+Definition opq_row (sx : oracle) (tbl : nat) (c v : Z) : list Z :=
+  let k := Z.to_nat (1000000 + Z.of_nat tbl * 1000000 + Z.abs c * 1000 + Z.abs v * 3) in
+  [oz sx k; oz sx (S k); oz sx (S (S k))].
+Definition nosv_ss_table (sx : oracle) (st : fstate) (c v : Z) : list Z := opq_row sx 0 c v.
+Definition nanos6_ss_table (sx : oracle) (st : fstate) (c v : Z) : list Z := opq_row sx 1 c v.
+Definition nodes_ss_table (sx : oracle) (st : fstate) (c v : Z) : list Z := opq_row sx 2 c v.
+Definition tampi_ss_table (sx : oracle) (st : fstate) (c v : Z) : list Z := opq_row sx 3 c v.
+Definition mpi_fn_table (sx : oracle) (st : fstate) (c v : Z) : list Z := opq_row sx 4 c v.
+Definition openmp_fn_table (sx : oracle) (st : fstate) (c v : Z) : list Z := opq_row sx 5 c v.
